@@ -1,5 +1,5 @@
 (* Pinned statements for C16: a changed statement or a new axiom fails the check. *)
-From SwimV Require Import Model.MsgPack Proofs.MsgPackProofs Proofs.MsgPackRecordProofs Props.C16.
+From SwimV Require Import Model.MsgPack Proofs.MsgPackProofs Proofs.MsgPackRecordProofs Proofs.MsgPackTruncProofs Props.C16.
 Open Scope N_scope.
 Check (C16_scalar_roundtrip) : (forall v rest, wf v -> dec_scalar (enc_scalar v ++ rest) = MOk v rest).
 Print Assumptions C16_scalar_roundtrip.
@@ -11,3 +11,7 @@ Check (C16_record_roundtrip) : (forall v, WFV v -> forall fuel rest, (depth v <=
 Print Assumptions C16_record_roundtrip.
 Check (C16_record_encoding_injective) : (forall a b, WFV a -> WFV b -> enc a = enc b -> a = b).
 Print Assumptions C16_record_encoding_injective.
+Check (C16_record_truncated_is_incomplete) : (forall v, WFV v -> forall fuel p q, (depth v <= fuel)%nat -> p ++ q = enc v -> q <> [] -> dec fuel p = VIncomplete).
+Print Assumptions C16_record_truncated_is_incomplete.
+Check (C16_record_encoding_prefix_free) : (forall a b q, WFV a -> WFV b -> enc a ++ q = enc b -> q = []).
+Print Assumptions C16_record_encoding_prefix_free.
